@@ -157,6 +157,13 @@ func mutate(old []byte, sp Spec, rng *rand.Rand, other []byte) ([]byte, error) {
 			h = h[:i] // "<hex>#<name>": the name is documentation only
 		}
 		return hex.DecodeString(h)
+	case "add":
+		// another representative of the same residue class: value + Hex (e.g. the group order or a multiple of it)
+		a, ok := new(big.Int).SetString(sp.Hex, 16)
+		if !ok {
+			return nil, fmt.Errorf("bad addend %q", sp.Hex)
+		}
+		return new(big.Int).Add(new(big.Int).SetBytes(old), a).Bytes(), nil
 	case "from-other":
 		if other == nil {
 			return nil, fmt.Errorf("no other message given")
